@@ -339,6 +339,8 @@ def reduce_result(r):
         return None
     if isinstance(r, Combinatoric):
         return resolve_combinatoric(r)
+    if isinstance(r, Array):
+        return Array([reduce_result(x) for x in r.contents])
     return r
 
 def execute_plot(plot, errout):
